@@ -10,6 +10,7 @@ import (
 	"math"
 	"math/big"
 	"os"
+	"path/filepath"
 	"sort"
 	"strings"
 	"time"
@@ -178,6 +179,14 @@ func init() {
 	}
 	intrinsics[v+"SchemaPattern"] = func(fr *frame, args []value) value {
 		return schemaPattern(args[0].(string))
+	}
+	intrinsics[v+"PublishedExtension"] = func(fr *frame, args []value) value {
+		vals, pat, found := publishedExtension(args[0].(string))
+		var out []value
+		for _, s := range vals {
+			out = append(out, s)
+		}
+		return tuple{out, pat, found}
 	}
 	intrinsics["math.Round"] = func(fr *frame, args []value) value {
 		if f, ok := args[0].(float64); ok {
@@ -839,4 +848,38 @@ func findPattern(v interface{}) string {
 		}
 	}
 	return ""
+}
+
+func publishedExtension(key string) (values []string, pattern string, found bool) {
+	for _, dir := range []string{"addons", "regimes", "catalogues"} {
+		files, _ := filepath.Glob("/repo/data/" + dir + "/*.json")
+		sort.Strings(files)
+		for _, f := range files {
+			data, err := os.ReadFile(f)
+			if err != nil {
+				continue
+			}
+			var doc struct {
+				Extensions []struct {
+					Key     string `json:"key"`
+					Pattern string `json:"pattern"`
+					Values  []struct {
+						Code string `json:"code"`
+					} `json:"values"`
+				} `json:"extensions"`
+			}
+			if json.Unmarshal(data, &doc) != nil {
+				continue
+			}
+			for _, e := range doc.Extensions {
+				if e.Key == key {
+					for _, v := range e.Values {
+						values = append(values, v.Code)
+					}
+					return values, e.Pattern, true
+				}
+			}
+		}
+	}
+	return nil, "", false
 }
